@@ -667,3 +667,35 @@ def sweep():
 
 _NAME = {"+": "Plus", "-": "Minus", "*": "Multiply", "/": "Divide", "%": "Modulo", "==": "Eq", "!=": "NotEq", "<": "Lt", ">": "Gt", "<=": "LtEq", ">=": "GtEq",
          "&&": "And", "||": "Or", "neg": "Neg"}
+
+
+# ----------------------------------------------------------------------------- replay for the null tests (NP5*): null on either side, in a computed column
+NULL_SETUP = "create table t(id integer, b integer, c integer); insert into t values (1,5,1),(2,null,2),(3,7,null),(4,null,null);"
+NULL_CASES = [
+    ("from t\nderive {no_b = (null == b), has_c = (null != c)}\nselect {id, no_b, has_c}\nsort id\n", [(1, 0, 1), (2, 1, 1), (3, 0, 0), (4, 1, 0)]),
+    ("from t\nderive {no_b = (b == null), has_c = (c != null)}\nselect {id, no_b, has_c}\nsort id\n", [(1, 0, 1), (2, 1, 1), (3, 0, 0), (4, 1, 0)]),
+    ("from t\nfilter null == b\nselect {id}\nsort id\n", [(2,), (4,)]),
+]
+
+
+def _null_try(src, exp):
+    import replaylib
+    ok, sql = replaylib.compile_prql(src, "sql.sqlite")
+    if not ok:
+        return {"input": src, "expected": [list(r) for r in exp], "observed": sql[:300], "failing": sql.startswith("PANIC"), "replay_kind": "null_rows"}
+    ok2, rows = replaylib.sqlite_rows(NULL_SETUP, sql)
+    rows = [tuple(r) for r in rows] if ok2 else rows
+    return {"input": src, "expected": [list(r) for r in exp], "observed": [list(r) for r in rows] if ok2 else "sqlite error: %s" % rows, "failing": (not ok2) or rows != exp, "replay_kind": "null_rows", "sql": sql}
+
+
+def replay(failure):
+    if "NP5" in failure.get("obligation", "") or "process_null" in failure.get("obligation", ""):
+        for src, exp in NULL_CASES:
+            r = _null_try(src, exp)
+            if r["failing"]:
+                return r
+    return {"failing": False}
+
+
+def rerun(doc):
+    return _null_try(doc["input"], [tuple(r) for r in doc["expected"]])
